@@ -46,6 +46,12 @@ TEXT = {
  "C17": ("BFS to a fixpoint on the full internal state of the real PushBuffer for each capacity and kind against a bounded VecDeque, plus depth-bounded BFS of INPUT/OUTPUT instruction histories through the real interpreter step.",
          "Trusted: the VecDeque reference and the io rows of harness/src/refmodel.rs.",
          "explicit-state BFS (fixpoint on internal state; depth-bounded for instruction histories) against a reference model"),
+ "C19": ("Every stack-id vector up to length K x populated states x positions: LIST.* by name against the reference rows, with conservation and LIST.ADD/LIST.GET/execute round-trip oracles.",
+         "Trusted: LIST rows of refmodel.rs.",
+         "exhaustive enumeration of id vectors / positions against a reference model + conservation invariant"),
+ "C20": ("Every (ntotal, ndim, centre, radius) of the grids against brute-force integer geometry and the structural laws; LIST.NEIGHBOR* by name over clamping classes.",
+         "Trusted: neighbors_ref / edge_len in refmodel.rs (exact integer arithmetic).",
+         "exhaustive enumeration over parameter grids against a brute-force reference + algebraic laws"),
 }
 
 hooks = dict(
